@@ -104,6 +104,14 @@ impl SendDispatcher<'_> {
     }
 }
 
+#[cfg(feature = "verif-hooks")]
+impl SendDispatcher<'_> {
+    /// Group sizes per stage of the list that is really executed (verification hook).
+    pub fn verif_shape(&self) -> Vec<Vec<usize>> {
+        self.stages.iter().map(Stage::verif_group_sizes).collect()
+    }
+}
+
 impl RunNow<'_> for SendDispatcher<'_> {
     fn run_now(&mut self, world: &World) {
         self.dispatch(world);
